@@ -146,6 +146,24 @@ func c17Units(tier string) []hx.Unit {
 		}
 	}})
 
+	// cache: two beacon nodes announce the same new head (one event stream, i.e. one goroutine, per node) while a
+	// proposal asks for the execution chain head
+	scns = append(scns, c17Scn{name: "cache/head-from-two-nodes+execution-head", settle: int64(time.Second), setup: func(ctx context.Context) []func() {
+		ts := map[phase0.Root]phase0.Slot{root(1): 33, root(2): 990, root(3): 991}
+		hd := &c18Headers{slots: ts, parents: map[phase0.Root]phase0.Root{root(2): root(1), root(3): root(2)}, heads: []phase0.Root{root(1)}}
+		ev := &eventsProvider{}
+		svc, err := standardcache.New(ctx, standardcache.WithLogLevel(zerolog.Disabled), standardcache.WithMonitor(&nullmetrics.Service{}),
+			standardcache.WithChainTime(newChainTime(-int64(66*15*time.Minute), time.Minute, 15)), standardcache.WithScheduler(&nopScheduler{}),
+			standardcache.WithEventsProvider(ev), standardcache.WithSignedBeaconBlockProvider(c18Blocks{h: hd}),
+			standardcache.WithBeaconBlockHeadersProvider(hd))
+		must(err)
+		return []func(){
+			func() { ev.deliver("head", &apiv1.HeadEvent{Block: root(2), Slot: 990}) },
+			func() { ev.deliver("head", &apiv1.HeadEvent{Block: root(2), Slot: 990}) },
+			func() { _, _ = svc.ExecutionChainHead(ctx) },
+		}
+	}})
+
 	// block relay: refresh (success and failure paths) vs registration round vs lookups vs auction.
 	// Two refreshes never overlap in production (one periodic job, and a job never overlaps itself, C02),
 	// so refresh || refresh is not a scenario.
